@@ -44,7 +44,8 @@ class SownSweep:
 
     def __init__(self, sw, shuffle=False, via="combos"):
         self.sw, self.shuffle, self.via = sw, shuffle, via
-        self.sorted_combos = sorted(sw.combos, key=lambda x: x[0])
+        # sow_combos sorts the combos by argument name; sow_cases keeps them as given
+        self.sorted_combos = sorted(sw.combos, key=lambda x: x[0]) if via == "combos" else list(sw.combos)
 
     def n(self):
         return self.sw.n_settings()
